@@ -8,6 +8,7 @@ package main
 // order, so a property decided on the variant is decided for the program.
 
 import (
+	"os"
 	"bytes"
 	"fmt"
 	"go/token"
@@ -19,18 +20,16 @@ import (
 
 const (
 	inlineMaxInstrs = 120
-	inlineRounds    = 4
+	inlineRounds    = 6
 )
 
-// helperEligible: an unexported, named (not anonymous) module function that is never used as a value.
+// helperEligible: an unexported, named (not anonymous) module function. (One that is also used as a value is inlined at
+// its static call sites but never dropped from the function list.)
 func (p *Prog) helperEligible(g *ssa.Function) bool {
 	if g == nil || g.Parent() != nil || !p.InModule(g) || g.Blocks == nil || g.Synthetic != "" {
 		return false
 	}
 	if token.IsExported(g.Name()) || g.Name() == "init" || g.Name() == "main" {
-		return false
-	}
-	if p.addrTaken[g] {
 		return false
 	}
 	if g.TypeParams() != nil || len(g.TypeArgs()) > 0 {
@@ -56,6 +55,7 @@ func (p *Prog) InlineHelpers(noInline map[string]bool) (inlined []string, remove
 		}
 	}
 	everInlined := map[*ssa.Function]bool{}
+	devirt := false
 	for round := 0; round < inlineRounds; round++ {
 		changedAny := false
 		for _, f := range p.Funcs {
@@ -106,6 +106,26 @@ func (p *Prog) InlineHelpers(noInline map[string]bool) (inlined []string, remove
 				if e := ssa.FinishInlining(f, &buf); e != nil {
 					return inlined, removed, fmt.Errorf("%v: %s", e, buf.String())
 				}
+				dv, dt := ssa.Devirtualize(f), ssa.DevirtualizeTables(f)
+				if os.Getenv("GCLVERIFY_DEBUG") != "" {
+					fmt.Printf("DEBUG devirt %s: %d %d\n", p.Key(f), dv, dt)
+				}
+				if dv+dt > 0 {
+					devirt = true
+					if e := ssa.FinishInlining(f, &buf); e != nil {
+						return inlined, removed, fmt.Errorf("devirtualisation: %v: %s", e, buf.String())
+					}
+				}
+				if ssa.SimplifyBooleans(f) > 0 {
+					if e := ssa.FinishInlining(f, &buf); e != nil {
+						return inlined, removed, fmt.Errorf("boolean simplification: %v: %s", e, buf.String())
+					}
+				}
+				if ssa.FoldConstantBranches(f) > 0 {
+					if e := ssa.FinishInlining(f, &buf); e != nil {
+						return inlined, removed, fmt.Errorf("constant branches: %v: %s", e, buf.String())
+					}
+				}
 				if ssa.ThreadJumps(f) > 0 {
 					if e := ssa.FinishInlining(f, &buf); e != nil {
 						return inlined, removed, fmt.Errorf("jump threading: %v: %s", e, buf.String())
@@ -113,9 +133,10 @@ func (p *Prog) InlineHelpers(noInline map[string]bool) (inlined []string, remove
 				}
 			}
 		}
-		if !changedAny {
+		if !changedAny && !devirt {
 			break
 		}
+		devirt = false
 	}
 	// helpers without remaining static call sites are dead code now: take them out of the function list
 	remaining := map[*ssa.Function]int{}
@@ -132,7 +153,7 @@ func (p *Prog) InlineHelpers(noInline map[string]bool) (inlined []string, remove
 	}
 	var keep []*ssa.Function
 	for _, f := range p.Funcs {
-		if f.Parent() == nil && everInlined[f] && remaining[f] == 0 && !ifaceMethods[f.Name()] {
+		if f.Parent() == nil && everInlined[f] && remaining[f] == 0 && !ifaceMethods[f.Name()] && !p.addrTaken[f] {
 			removed = append(removed, p.Key(f))
 			if p.removed == nil {
 				p.removed = map[*ssa.Function]bool{}
